@@ -30,7 +30,7 @@ def shards(tier):
 def floors(tier):
     return {"accepted": 5000, "stable": 5000, "variant_pairs_equal": 2000, "variant_pairs_with_different_text": 500,
             "extreme_atoms": 3000, "charge_with_zero_digit": 100, "index_len2": 20, "index_len3": 4, "aromatic_ok": 50,
-            "tokens_checked": 50000}
+            "tokens_checked": 50000, "cross_table_decodes": 300}
 
 
 def dress(m, rng, p=0.6):
@@ -121,8 +121,18 @@ def run(ctx):
         return x
 
     n = 2000 if quick else 20000
+    recent = []
     for i in range(n):
         if i % 50 == 0:
+            if recent:
+                # the symbols just emitted are first decoded under a tight and a roomy table (rejections and
+                # acceptances of H-rich symbols included), then the next table is set
+                for tt in ({"?": 1}, "octet_rule", {"?": 20}):
+                    sf.set_semantic_constraints(tt)
+                    for xx in recent[-15:]:
+                        call_guard(lambda: sf.decoder(xx), expected=(sf.DecoderError,))
+                        ctx.count("cross_table_decodes")
+                recent = []
             t = rng.choice([{"?": 12}, {"?": 12}, "default", "hypervalent", "octet_rule", None])
             if t is None:
                 t = tablegen.random_table(rng, caps=[4, 6, 8, 12, 20], q=12)
@@ -152,7 +162,9 @@ def run(ctx):
         if not same:
             ctx.finding("generator-bug", {"smiles": s1, "variant": s2}, "variant spelling is not the same molecule")
             continue
-        check(s1, table, tname, "G5-extreme" if extreme else "G5", s_variant=s2)
+        xo = check(s1, table, tname, "G5-extreme" if extreme else "G5", s_variant=s2)
+        if xo:
+            recent.append(xo)
 
     sf.set_semantic_constraints("default")
     table = sf.get_semantic_constraints()
